@@ -69,9 +69,22 @@ class _PatchedDatetime(_REAL_DT):
         return _REAL_DT.fromtimestamp(_now())
 
 
+_REAL_OS_OPEN = os.open
+
+
+def _os_open(path, flags, *a, **kw):
+    log = _STATE["log"]
+    if log is not None and flags & (os.O_WRONLY | os.O_RDWR) and flags & os.O_CREAT:
+        try:
+            log.append(os.path.abspath(os.fspath(path)))
+        except TypeError:
+            pass
+    return _REAL_OS_OPEN(path, flags, *a, **kw)
+
+
 def _open(file, mode="r", *a, **kw):
     log = _STATE["log"]
-    if log is not None and isinstance(mode, str) and any(c in mode for c in "wax+"):
+    if log is not None and isinstance(mode, str) and any(c in mode for c in "wax+") and not isinstance(file, int):
         try:
             log.append(os.path.abspath(os.fspath(file)))
         except TypeError:
@@ -84,6 +97,7 @@ def install():
     datetime.datetime = _PatchedDatetime
     builtins.open = _open
     io.open = _open
+    os.open = _os_open
 
 
 def digest_tree(out):
@@ -98,13 +112,14 @@ def digest_tree(out):
 
 def exec_job(job):
     """One generator run.  job: front (cli|api), argv | api, cwd, clock (float|None), tz, out (absolute)."""
+    pre_rc = [exec_job(pj)["rc"] for pj in job.get("pre", [])]     # earlier runs in this very process (history)
     old_cwd, old_argv, old_tz = os.getcwd(), list(sys.argv), os.environ.get("TZ")
     _STATE["clock"] = job.get("clock")
     _STATE["log"] = []
     if job.get("tz"):
         os.environ["TZ"] = job["tz"]
         time.tzset()
-    res = {"id": job["id"], "rc": 0, "err": ""}
+    res = {"id": job["id"], "rc": 0, "err": "", "pre_rc": pre_rc}
     try:
         os.chdir(job["cwd"])
         if job["front"] == "cli":
@@ -120,13 +135,16 @@ def exec_job(job):
         else:
             import nunavut
             a = dict(job["api"])
-            if "templates_dir" in a or "support_templates_dir" in a:
+            if "templates_dir" in a or "support_templates_dir" in a or "config_overrides" in a:
                 # generate_types() has no template arguments: the same steps through the public building blocks
                 import pathlib, pydsdl
                 from nunavut.lang import LanguageContextBuilder, Language
-                lctx = (LanguageContextBuilder(include_experimental_languages=a.get("include_experimental_languages", False))
-                        .set_target_language(a["language_key"])
-                        .set_target_language_configuration_override(Language.WKCV_LANGUAGE_OPTIONS, a.get("language_options") or {}).create())
+                bld = (LanguageContextBuilder(include_experimental_languages=a.get("include_experimental_languages", False))
+                       .set_target_language(a["language_key"])
+                       .set_target_language_configuration_override(Language.WKCV_LANGUAGE_OPTIONS, a.get("language_options") or {}))
+                for ck, cv in (a.get("config_overrides") or {}).items():
+                    bld.set_target_language_configuration_override(ck, cv)
+                lctx = bld.create()
                 types = pydsdl.read_namespace(str(a["root_namespace_dir"]), a.get("lookup_directories") or [])
                 ns = nunavut.build_namespace_tree(types, str(a["root_namespace_dir"]), str(a["out_dir"]), lctx)
                 kw = {k: pathlib.Path(a[k]) for k in ("templates_dir", "support_templates_dir") if k in a}
@@ -472,13 +490,29 @@ except ValueError:
     MY_SEED = None
 T0 = 1000000000.0          # 2001-09-09
 CLOCKS = [1234567890.0, 1893456000.5, 86400.0 * 366 + 0.25]
-DIMS = ("clock", "hashseed", "process", "cwd", "spelling", "location", "outlocation")
+DIMS = ("clock", "hashseed", "process", "cwd", "spelling", "location", "outlocation", "outstate", "history")
+
+# the run that happened earlier in the same process (hist = prior): other language options, other file naming
+# two earlier runs: one that differs in configuration only (same file naming, so that a memo keyed by language / extension is hit),
+# one that also names its files differently
+PRIOR_CLI = {"c": [["--configuration", "{cfgy}", "--target-endianness", "big", "--enable-serialization-asserts"],
+                   ["--output-extension", ".xx", "--omit-float-serialization-support"]],
+             "cpp": [["--configuration", "{cfgy}", "--target-endianness", "big", "--enable-serialization-asserts", "--language-standard", "c++17-pmr"],
+                     ["--output-extension", ".xx", "--language-standard", "c++17"]],
+             "py": [["--enable-serialization-asserts", "--omit-serialization-support"], ["--namespace-output-stem", "idx", "--output-extension", ".pyx"]],
+             "html": [["--namespace-output-stem", "idx"], ["--output-extension", ".htm"]]}
+PRIOR_CONFIG = "nunavut.lang.c:\n  support_namespace: vendor.cyphal\nnunavut.lang.cpp:\n  support_namespace: vendor.cyphal\n"
 
 
 def ambient(**kw):
     """proc: sub (fresh `python launcher` running the CLI as __main__), plain (fresh `python -m nunavut`, no launcher, real
-    clock), worker (a long-lived interpreter that has run other jobs), inproc (the check's own interpreter)."""
-    a = {"clock": T0, "tz": "", "seed": 0, "proc": "sub", "cwd": "work", "spell": "abs", "loc": "A", "outloc": "in"}
+    clock), worker (a long-lived interpreter that has run other jobs), inproc (the check's own interpreter).
+    outst: empty | stale (the output directory holds the longer output of an earlier run of the same inputs with auditing
+    information and assertions, at the same paths; that run happened in another process when proc is sub).
+    hist: none | prior (the same process has executed a run of the same inputs with OTHER options -- support namespace, endianness,
+    standard, extension, namespace file stem -- into another directory before)."""
+    a = {"clock": T0, "tz": "", "seed": 0, "proc": "sub", "cwd": "work", "spell": "abs", "loc": "A", "outloc": "in", "outst": "empty",
+         "hist": "none"}
     a.update(kw)
     return a
 
@@ -499,6 +533,10 @@ def amb_dims(ref, a):
         d.append("location")
     if ref["outloc"] != a["outloc"]:
         d.append("outlocation")
+    if ref.get("outst", "empty") != a.get("outst", "empty"):
+        d.append("outstate")
+    if ref.get("hist", "none") != a.get("hist", "none"):
+        d.append("history")
     return d
 
 
@@ -624,8 +662,6 @@ class Lab:
             sp = lambda p: os.path.relpath(str(p), str(cwd))  # noqa: E731
         else:
             sp = str
-        job = {"id": self.nrun, "front": opts.front, "cwd": str(cwd), "clock": amb["clock"], "tz": amb["tz"], "out": str(out),
-               "as_main": amb["proc"] == "sub"}
         lk = [sp(self.top(base, "lk") / l) for l in inputs.lookups]
 
         def fill(a):
@@ -633,22 +669,48 @@ class Lab:
                 a = a.replace("{btpl}", sp(self.builtin_copy(base, "templates", opts.lang)))
             if "{bsup}" in a:
                 a = a.replace("{bsup}", sp(self.builtin_copy(base, "support", opts.lang)))
+            if "{cfgy}" in a:
+                cf = base / "cfg" / "other.yaml"
+                if not cf.exists():
+                    cf.parent.mkdir(parents=True, exist_ok=True)
+                    cf.write_text(PRIOR_CONFIG)
+                a = a.replace("{cfgy}", sp(cf))
             return a.replace("{tplg}", sp(base / "tplg")).replace("{tpl}", sp(base / "tpl"))
 
-        if opts.front == "cli":
-            argv = ["--experimental-languages", "-l", opts.lang, "-O", sp(out)]
-            for l in lk:
-                argv += ["--lookup-dir", l]
-            argv += [fill(a) for a in opts.args]
-            if opts.audit:
-                argv.append("--embed-auditing-info")
-            argv.append(sp(self.top(base, "in") / inputs.root))
-            job["argv"] = argv
-        else:
-            api = {k: (fill(v) if isinstance(v, str) else v) for k, v in opts.api.items()}
-            api.update(language_key=opts.lang, root_namespace_dir=sp(self.top(base, "in") / inputs.root), out_dir=sp(out), lookup_directories=lk,
-                       include_experimental_languages=True, embed_auditing_info=bool(opts.audit))
-            job["api"] = api
+        def build(args, api_kw, audit, to):
+            j = {"id": self.nrun, "front": opts.front, "cwd": str(cwd), "clock": amb["clock"], "tz": amb["tz"], "out": str(to),
+                 "as_main": amb["proc"] == "sub"}
+            if opts.front == "cli":
+                argv = ["--experimental-languages", "-l", opts.lang, "-O", sp(to)]
+                for l in lk:
+                    argv += ["--lookup-dir", l]
+                argv += [fill(a) for a in args]
+                if audit:
+                    argv.append("--embed-auditing-info")
+                argv.append(sp(self.top(base, "in") / inputs.root))
+                j["argv"] = argv
+            else:
+                api = {k: (fill(v) if isinstance(v, str) else v) for k, v in api_kw.items()}
+                api.update(language_key=opts.lang, root_namespace_dir=sp(self.top(base, "in") / inputs.root), out_dir=sp(to), lookup_directories=lk,
+                           include_experimental_languages=True, embed_auditing_info=bool(audit))
+                j["api"] = api
+            return j
+
+        job = build(opts.args, opts.api, opts.audit, out)
+        if amb.get("outst", "empty") == "stale":
+            # same options plus auditing information and assertions: the same paths, longer files
+            lo = dict(opts.api.get("language_options") or {}, enable_serialization_asserts=True)
+            stale = build(list(opts.args) + ["--enable-serialization-asserts"], dict(opts.api, language_options=lo), True, out)
+            job["pre_sep" if amb["proc"] == "sub" else "pre"] = [stale]
+        if amb.get("hist", "none") == "prior":
+            other_api = {"omit_serialization_support": False, "language_options": {"target_endianness": "big", "enable_serialization_asserts": True}}
+            if opts.lang in ("c", "cpp"):
+                other_api["config_overrides"] = {"support_namespace": "vendor.cyphal"}
+            for n_prior, prior_args in enumerate(PRIOR_CLI[opts.lang]):
+                pa = dict(other_api, language_options={"target_endianness": "little"}) if n_prior else other_api
+                if n_prior:
+                    pa.pop("config_overrides", None)
+                job.setdefault("pre", []).append(build(prior_args, pa, False, str(out) + ".prior"))
         return job, out, base
 
     def _spawn(self, jobs, seed):
@@ -710,7 +772,13 @@ class Lab:
             job, _out, _base, amb = prepared[k]
             if amb["proc"] == "plain":
                 return k, self._plain(job, amb["seed"])
-            return k, self._spawn([job], amb["seed"])[0]
+            pre_sep = job.pop("pre_sep", None)
+            if pre_sep:
+                sep_rc = [r["rc"] for r in self._spawn(pre_sep, amb["seed"])]      # the earlier run, in a process of its own
+            res = self._spawn([job], amb["seed"])[0]
+            if pre_sep:
+                res["pre_rc"] = sep_rc + res.get("pre_rc", [])
+            return k, res
 
         def do_worker(seed):
             ks = workers[seed]
@@ -731,6 +799,9 @@ class Lab:
                 ks, rs = f.result()
                 for k, r in zip(ks, rs):
                     results[k] = r
+        for p in prepared:
+            if p[3].get("hist", "none") == "prior":
+                shutil.rmtree(str(p[1]) + ".prior", ignore_errors=True)
         return [(prepared[k][0], prepared[k][1], results[k]) for k in range(len(prepared))]
 
 
@@ -752,6 +823,8 @@ def _blobs(text):
 
 def where_differs(a, b, loc_a, loc_b):
     """A stable class for the place where two versions of one generated file differ."""
+    if len(b) > len(a) and b.startswith(a):
+        return "extra-bytes-after-end", "the variant is the reference plus %d more bytes: %r" % (len(b) - len(a), b[len(a):len(a) + 80])
     try:
         ta, tb = a.decode("utf-8"), b.decode("utf-8")
     except UnicodeDecodeError:
@@ -813,6 +886,7 @@ class Campaign:
         self.opts = {}
         self.audit_diffs = 0
         self.audit_runs = 0
+        self.preludes = collections.Counter()          # earlier runs (outst = stale / hist = prior): succeeded? -> count
         self.strhash = collections.defaultdict(set)   # hash seed -> str hashes seen in the interpreters that ran jobs
 
     def new_inputs(self, make, *a):
@@ -870,6 +944,8 @@ class Campaign:
             self.audit_runs += 1
         if "strhash" in res:
             self.strhash[amb["seed"]].add(res["strhash"])
+        for rc in res.get("pre_rc") or []:
+            self.preludes[rc == 0] += 1
         if rec["order"]:
             self.orders[(inputs.id, opts.id)].add(tuple(r for r in res["order"] if file_class(r) != "support"))
         return rid
@@ -984,8 +1060,10 @@ def validate(ctx, records, bin_size=120):
 # model runs and stimuli derived from them
 # ------------------------------------------------------------------------------------------------------------------
 GATES = ["gzip_mtime", "ns_time", "model_abspath", "assert_abspath", "model_cache", "pp_carry", "include_order", "html_order", "filter_owner",
-         "template_dir_abspath", "template_dir_spelling"]
-AMBIENT_GATES = ("gzip_mtime", "ns_time", "model_abspath", "assert_abspath", "template_dir_abspath", "template_dir_spelling")
+         "template_dir_abspath", "template_dir_spelling", "stale_tail", "process_memo_keyed_too_coarsely"]
+AMBIENT_GATES = ("gzip_mtime", "ns_time", "model_abspath", "assert_abspath", "template_dir_abspath", "template_dir_spelling", "stale_tail",
+                 "process_memo_keyed_too_coarsely")
+ONE_SHAPE_GATES = ("template_dir_abspath", "template_dir_spelling", "stale_tail", "process_memo_keyed_too_coarsely")
 
 
 def _tlc(ctx, cfg, workers):
@@ -1010,12 +1088,14 @@ def run_models(ctx):
         ("neg", ("GenRepro_neg", 1, "")),
         ("audit", ("GenRepro_audit", 1, "")),
         ("wit_amb", ("GenRepro_wit_amb", 1, "one ambient gate open at a time, MaxTypes=2 MaxNested=1")),
+        ("hist", ("GenRepro_hist", 1, "MaxTypes=2 MaxNested=2, all gates closed, run 2 varies output-directory state x process history")),
+        ("wit_hist", ("GenRepro_wit_hist", 1, "gates stale_tail / process_memo_keyed_too_coarsely open one at a time, MaxTypes=2 MaxNested=1")),
         ("wit_order", ("GenRepro_wit_order" + sfx, 1, "one order-borne gate open at a time, MaxTypes=%d, same clock/loc/cwd in both runs" % mt)),
         ("orders", ("GenRepro_orders" + sfx, 1, "possible creation orders per shape (c: no namespace files, py: with), MaxTypes=%d" % mt)),
     ])
     with concurrent.futures.ThreadPoolExecutor(max_workers=len(plan)) as ex:
         results = dict(zip(plan, ex.map(lambda k: _tlc(ctx, plan[k][0], plan[k][1]), plan)))
-    for k in ("design", "sorted", "wit_amb", "wit_order", "orders"):
+    for k in ("design", "sorted", "hist", "wit_amb", "wit_hist", "wit_order", "orders"):
         res = results[k]
         if not res.ok:
             raise MachineryFailure("model GenRepro/%s did not pass: %s %s\n%s" % (plan[k][0], res.error, res.violated, res.out[-3000:]))
@@ -1028,7 +1108,7 @@ def run_models(ctx):
         raise MachineryFailure("negative control: auditing information did not make the two results differ in the model (%s / %s)" % (neg2.error, neg2.violated))
     ctx.cov["model_negative_control"] = ["gate model_cache open, unsorted walk: invariant Refines refuted after %d states" % neg.distinct,
                                          "embed_auditing_info: results differ (SameEvenWithAudit refuted after %d states) while Refines holds" % neg2.distinct]
-    wit = results["wit_amb"].json_lines() + results["wit_order"].json_lines()
+    wit = results["wit_amb"].json_lines() + results["wit_hist"].json_lines() + results["wit_order"].json_lines()
     orders = results["orders"].json_lines()
     by_gate = collections.Counter(g for w in wit for g in w["gates"])
     missing = [g for g in GATES if not by_gate[g]]
@@ -1070,6 +1150,8 @@ GATE_STIMULUS = {
     # user template directories: a byte-identical copy of the target's built-in set, and the probe that prints every nunavut.* global
     "template_dir_abspath": [(l, ["--templates", t]) for l in ("c", "cpp", "py", "html") for t in ("{btpl}", "{tplg}")],
     "template_dir_spelling": [(l, ["--templates", t]) for l in ("c", "cpp", "py", "html") for t in ("{btpl}", "{tplg}")],
+    "stale_tail": [(l, []) for l in ("c", "cpp", "py", "html")],
+    "process_memo_keyed_too_coarsely": [("c", []), ("cpp", [])],
 }
 
 
@@ -1114,7 +1196,7 @@ def model_stimuli(ctx, camp, wit, orders):
         chosen = [sks[0], sks[-1]] if len(sks) > 1 else sks
         if not q:
             chosen = sks[:: max(1, len(sks) // 6)]
-        if g.startswith("template_dir"):
+        if g in ONE_SHAPE_GATES:
             chosen = sks[-1:] if q else [sks[0], sks[-1]]
         for sk in chosen:
             w = shapes[sk]
@@ -1124,7 +1206,8 @@ def model_stimuli(ctx, camp, wit, orders):
                 i, o = inputs_for(w["shape"]), opts_for(lang, args)
                 var = ambient(clock=CLOCKS[0] if "clock" in dims else T0, tz="Asia/Tokyo" if "clock" in dims else "",
                               loc="B" if "loc" in dims else "A", cwd="input" if "cwd" in dims else "work",
-                              spell="rel" if ("cwd" in dims and g.startswith("template_dir")) else "abs")
+                              spell="rel" if ("cwd" in dims and g.startswith("template_dir")) else "abs",
+                              outst="stale" if "outst" in dims else "empty", hist="prior" if "hist" in dims else "none")
                 p = pairs.setdefault((i.id, o.id), (i, o, [], []))
                 if var not in p[2]:
                     p[2].append(var)
@@ -1189,6 +1272,7 @@ def variants(rng, n_seeds, rich, front):
          ambient(cwd="base", spell="rel"), ambient(seed=1), ambient(outloc="out"), ambient(proc="worker")]
     if front == "cli":
         v.append(ambient(proc="plain", clock=None))
+    v += [ambient(outst="stale"), ambient(hist="prior")]
     v += [ambient(seed=s) for s in range(2, 2 + n_seeds)]
     v += [ambient(clock=CLOCKS[1], tz="America/St_Johns", loc="B", cwd="input", spell="rel", seed=3 + n_seeds, outloc="out"),
           ambient(proc="worker", seed=7, clock=CLOCKS[2], loc="C", cwd="base", spell="rel")]
@@ -1237,6 +1321,8 @@ def random_campaign(ctx, camp):
                       ambient(proc="worker", seed=4, loc="C", cwd="root", clock=CLOCKS[1], spell="rel")]
                 if MY_SEED is not None:
                     vs.insert(4, ambient(proc="inproc", seed=MY_SEED))
+                # a fresh process in which the run with other options comes first; and the same inside the long-lived worker
+                vs += [ambient(proc="sub", hist="prior"), ambient(proc="worker", outst="stale"), ambient(proc="worker", hist="prior")]
                 specs.append((i, camp.new_opts(lang, "api", api=api), ref, vs if (n == 0 or not q) else vs[:4]))
     camp.groups(specs)
     for (i, o, _r, vs) in specs:
@@ -1304,15 +1390,28 @@ def run(ctx):
 
     # binding self-tests: a reference record against a copy of itself is accepted; with one recorded field corrupted the T-layer
     # must reject exactly that record with the right clause
-    cands = [r for r in camp.records if not r["audit"] and len(r["files"]) > 3 and len(r["order"]) > 3 and len({n["ns"] for n in r["nodes"]}) > 3]
-    if not cands:
-        raise MachineryFailure("no record is rich enough for the binding self-test")
-    ref = cands[len(cands) // 2]
+    # The self-test is about the T-layer binding, not about the tree: it takes a recorded run where one is suitable and a synthetic
+    # record otherwise (a tree on which no run delivers several files or an observable creation order is judged by its verdicts).
+    def rich(r, need_order):
+        return (not r["audit"] and len(r["files"]) > 3 and len({n["ns"] for n in r["nodes"]}) > 3 and (len(r["order"]) > 3 or not need_order))
 
-    def tampered(f):
-        v = json.loads(json.dumps(ref))
+    paths = ["vroot/T1_1_0.h", "vroot/na/T1_1_0.h", "vroot/na/nb/T1_1_0.h", "vroot/nc/T1_1_0.h", "vroot/nc/T2_1_0.h"]
+    syn = {"id": 0, "inputs": 0, "opts": 0, "audit": False, "files": [{"p": [ord(c) for c in p], "d": limbs(sha(p))} for p in paths]}
+    syn["par"], syn["nodes"], syn["order"] = tree_of(paths, paths)      # sorted paths of this layout are a pre-order walk
+    cands = [r for r in camp.records if rich(r, True)] or [r for r in camp.records if rich(r, False)]
+    ref = cands[len(cands) // 2] if cands else syn
+    oref = ref if len(ref["order"]) > 3 else syn
+    if ref is syn or oref is syn:
+        ctx.cov["selftest_record"] = "synthetic%s (no recorded run was suitable)" % ("" if ref is syn else " for the creation order")
+    if not any(r["order"] for r in camp.records):
+        ctx.not_exercised("no run's file creation order could be observed (the generator does not open its outputs through open()/os.open()): "
+                          "the implementation-level order clause was not applied")
+
+    def tampered(f, base=None):
+        base = base or ref
+        v = json.loads(json.dumps(base))
         f(v)
-        return validate(ctx, [dict(ref, id=0), dict(v, id=1)]).get(1, "")
+        return validate(ctx, [dict(base, id=0), dict(v, id=1)]).get(1, "")
 
     def flip(v):
         v["files"][1]["d"][3] ^= 1
@@ -1327,9 +1426,13 @@ def run(ctx):
     ctx.selftest("an identical repetition is accepted", tampered(lambda v: None) == "")
     ctx.selftest("one flipped digest bit is rejected as repro.digest", tampered(flip) == "repro.digest")
     ctx.selftest("one dropped path is rejected as repro.paths", tampered(drop) == "repro.paths")
-    ctx.selftest("a reversed creation order is flagged as drift.order (and nothing else)", tampered(reorder) == "drift.order")
+    ctx.selftest("a reversed creation order is flagged as drift.order (and nothing else)", tampered(reorder, oref) == "drift.order")
     ctx.cov["traces_validated_against_impl"] -= 5   # the self-test records are not executions of the implementation
 
+    ctx.cov["earlier_runs_for_history"] = {"succeeded": camp.preludes[True], "failed": camp.preludes[False]}
+    if camp.preludes[False] > camp.preludes[True]:
+        ctx.not_exercised("most of the earlier runs that set up output-directory state / process history failed (%d of %d)"
+                          % (camp.preludes[False], camp.preludes[False] + camp.preludes[True]))
     ctx.cov["hash_seeds_in_force"] = {"seeds": sorted(camp.strhash), "distinct_str_hashes": len({h for v in camp.strhash.values() for h in v})}
     ctx.selftest("PYTHONHASHSEED reaches the interpreters (one str hash per seed, different between seeds)",
                  all(len(v) == 1 for v in camp.strhash.values()) and len({h for v in camp.strhash.values() for h in v}) >= min(3, len(camp.strhash)))
@@ -1357,7 +1460,8 @@ def run(ctx):
                        "copies of each target's built-in template set / support templates, and a probe template printing every nunavut.* global, "
                        "all moved and re-spelled with the inputs) x ambient variants (clock+TZ, hash seed, fresh "
                        "subprocess / plain `python -m nunavut` / long-lived worker / the check's interpreter, cwd, relative spelling, three "
-                       "absolute locations of different length, output elsewhere); distinct = (front end, target, options, input set[, gates]); "
+                       "absolute locations of different length, output elsewhere, output directory holding the longer output of an earlier run, an earlier "
+                       "run with other language options in the same process); distinct = (front end, target, options, input set[, gates]); "
                        "non-trivial = every pair is run under at least 3 ambient states" % (ctx.pick(2, 12), ctx.pick(4, 8)))
     ctx.cov["exhaustive"] = False
     ctx.assumptions += [
